@@ -161,8 +161,8 @@ impl<'a> IrEmitter<'a> {
             //
             // This avoids capitalization heuristics that can mis-emit runtime variables named `TitleCase`.
             if Self::receiver_is_type_like(receiver) {
-                let type_ident = format_ident!("{}", name);
-                let m = format_ident!("{}", method);
+                let type_ident = format_ident!("{}", Self::escape_keyword(name));
+                let m = format_ident!("{}", Self::escape_keyword(method));
                 // Apply Incan-style argument conversions when calling associated functions on Incan-owned types
                 // (structs/enums/traits). This is important for `str` literals which are emitted as `&'static str`,
                 // but many Incan-level signatures expect owned `String` in Rust (e.g., newtype `from_underlying(v:
@@ -190,7 +190,7 @@ impl<'a> IrEmitter<'a> {
         }
 
         // Regular method call
-        let m = format_ident!("{}", method);
+        let m = format_ident!("{}", Self::escape_keyword(method));
         // Temporary targeted support: `app.run(port=8080)` should map to `app.run("127.0.0.1", 8080)`.
         if method == web_surface::APP_RUN_METHOD
             && args
@@ -300,8 +300,8 @@ impl<'a> IrEmitter<'a> {
                 .collect::<Result<_, _>>()?
         };
 
-        let type_ident = format_ident!("{}", type_name);
-        let m = format_ident!("{}", variant);
+        let type_ident = format_ident!("{}", Self::escape_keyword(type_name));
+        let m = format_ident!("{}", Self::escape_keyword(variant));
         Ok(quote! { #type_ident::#m(#(#arg_tokens),*) })
     }
 }
